@@ -115,9 +115,11 @@ def gen_problem(rng, n, herm, cplx, spectrum, start):
         A = (rng.randint(-6, 6) / 2) * np.eye(n, dtype=complex)
     elif spectrum == 'degenerate':
         # few distinct integer eigenvalues, rotated by dyadic reflections (general: plus a nilpotent part)
-        nd = rng.randint(1, max(1, min(3, n - 1)))
-        vals = [rng.randint(-4, 4) for _ in range(nd)]
-        D = np.diag([complex(vals[rng.randrange(nd)]) for _ in range(n)])
+        nd = rng.randint(2, 3) if n >= 4 else min(2, n)
+        vals = rng.sample(range(-4, 5), nd)
+        diag = vals + [rng.choice(vals) for _ in range(n - nd)]
+        rng.shuffle(diag)
+        D = np.diag([complex(x) for x in diag])
         if not herm:
             for i in range(n - 1):
                 if rng.random() < 0.3:
@@ -127,7 +129,7 @@ def gen_problem(rng, n, herm, cplx, spectrum, start):
     else:
         A = _rand_herm(rng, n, cplx) if herm else _rand_gen(rng, n, cplx)
     if start in ('invariant', 'eigvec') and n >= 2:
-        p = 1 if start == 'eigvec' else rng.randint(1, n - 1)
+        p = 1 if start == 'eigvec' else (rng.randint(2, n - 1) if n >= 3 else 1)
         B = _rand_herm(rng, p, cplx) if herm else _rand_gen(rng, p, cplx)
         Cb = _rand_herm(rng, n - p, cplx) if herm else _rand_gen(rng, n - p, cplx)
         M = np.zeros((n, n), dtype=complex)
